@@ -319,7 +319,7 @@ def shard(ctx):
             def test(rows, cmd, verbose, qual):
                 run_case(ctx, fx, rows, cmd, verbose, qual)
             return test
-        core.run_hypothesis(ctx, factory, 60 if q else 600)
+        core.run_hypothesis(ctx, factory, 60 if q else 2000)
     finally:
         fx.close()
 
